@@ -16,6 +16,13 @@
   (`fix = false`) the statement is false — `revival_counterexample`, by
   `decide` — and what remains true is `mutes_eq_bruteforce_partial`: the
   invariant survives every merge that does not revive an expired silence.
+
+  The specification `activeMatching` evaluates the matchers *stored in the
+  silence* (what `Query` and the API show), not the compiled matcher index.
+  Continued in AM.Props.C02I (one `Mutes` call as the code runs it: store
+  operations interleaved between its steps) and AM.Props.C02M (the matchers
+  stored under an id never change through the API path; what `Merge` relies
+  on; `mutes_eq_bruteforce_api` without any assumption on matchers).
 -/
 import AM.Lemmas.SilencerInv
 
@@ -105,22 +112,17 @@ theorem dedup_covers (l : List Sil) (seen : List String) (x : Sil) (h : x ∈ l)
 
 /-! ### one call of `Mutes` -/
 
-/-- the specification unfolded: a stored, active silence whose (indexed) matchers match -/
+/-- the specification unfolded: a stored, active silence whose stored matchers match -/
 theorem activeMatching_iff (msOf : String → MatcherSets) (env : Env) (s : Store) (now : Int) (ls : LabelSet)
-    (hi : IndexInv s) (hm : MiInv msOf s) (id : String) :
+    (hm : MiInv msOf s) (id : String) :
     activeMatching env s now ls id = true ↔
       ∃ m, lookup s.st id = some m ∧ getState m.sil now = .active ∧ matchesSets env.re (msOf id) ls = true := by
   unfold activeMatching
   cases hl : lookup s.st id with
   | none => simp
   | some m =>
-    have hsome := hi.miHas id (by simp [hl])
-    cases hmi : lookup s.mi id with
-    | none => simp [hmi] at hsome
-    | some ms =>
-      have := hm.mi id ms hmi
-      subst this
-      simp
+    have := hm.st id m hl
+    simp [this]
 
 section one
 variable (msOf : String → MatcherSets) (env : Env) (s : Store) (c : Cache) (now : Int) (ls : LabelSet)
@@ -202,7 +204,7 @@ theorem mutes_shape :
 include hi hm hc in
 theorem mem_activeIds (id : String) :
     id ∈ activeIdsOf now (dedupSils (candidates env s c now ls) []) ↔ activeMatching env s now ls id = true := by
-  rw [activeMatching_iff msOf env s now ls hi hm]
+  rw [activeMatching_iff msOf env s now ls hm]
   unfold activeIdsOf
   simp only [List.mem_map, List.mem_filter, decide_eq_true_eq]
   constructor
